@@ -26,6 +26,7 @@ package rtpav1
 //@ typeinv Decoder d
 //@   inv[C08] 0 <= d.fragmentsSize && d.fragmentsSize <= 3145728
 //@   inv[C08] d.fragmentsSize == sumlen(d.fragments, len(d.fragments))
+//@   inv[C08] d.frameBuffer == nil || d.fragments == nil || ref(d.frameBuffer) != ref(d.fragments)
 //@   inv[C08] 0 <= d.frameBufferLen && d.frameBufferLen <= 10
 //@   inv[C08] 0 <= d.frameBufferSize && d.frameBufferSize <= 3145728
 
@@ -47,6 +48,7 @@ package rtpav1
 //@ func (d *Decoder) resetFragments
 //@   opt typeinv=off
 //@   ensures[C08] d.fragmentsSize == 0 && len(d.fragments) == 0
+//@   ensures[C08] ref(d.fragments) == old(ref(d.fragments)) && (d.fragments == nil) == old(d.fragments == nil)
 //@   modifies d.fragments, d.fragmentsSize
 
 //@ func (d *Decoder) decodeOBUs
